@@ -172,9 +172,11 @@ PROPS["C19"] = {
     "spec_determined": True,
     "shards": {"quick": 16, "thorough": 32},
     "exhaustive": {"quick": [], "thorough": []},
-    "proved_scope": "",
-    "sampled_only_scope": "",
-    "assumptions": [],
+    "proved_scope": "totality of step/exec (termination checker); the step frame (guards, fetch, decode handling, mnemonic check, counter, end test, "
+                    "hook chain logic) never crashes; undecodable/unfetchable/unsupported/unimplemented => error for every state; access primitives never crash",
+    "sampled_only_scope": "crash sites inside instruction handlers (operand-kind expectations on iced's output) are modelled as panic outcomes and "
+                          "compared with the implementation on fuzzed byte strings; the decoder itself is exercised only",
+    "assumptions": ["iced-x86 decodes deterministically and terminates on every byte string (exercised on every case, not modelled)"],
 }
 
 NATIVE_SHARDS = {"quick": 8, "thorough": 32}
